@@ -389,8 +389,11 @@ func (r *Runner) finalChecks() {
 		}
 		w.ViolateLocked("C17", rule, sig, "%s #%d on %s invoked at %d ms is unresolved %d ms later (server state %v)", op.Kind, op.ID, op.Srv, op.InvokeMs, age, st)
 	}
-	// C20/R3: aborted calls leave no trace
+	// C20/R3: aborted calls leave no trace (in the final, converged state)
 	for _, op := range r.Ops {
+		if !r.atRest {
+			break
+		}
 		if op.Kind != "apply" || !op.Done || !errors.Is(op.err, raft.ErrAbortedByRestore) {
 			continue
 		}
